@@ -180,6 +180,16 @@ func (n *Node) Upload(data []byte, name string, pin, encrypt bool) (boson.Addres
 	return resp.Reference, nil
 }
 
+// UploadChunk posts one content-addressed chunk (payload = span || data) to POST /chunks,
+// optionally with the pin header, and returns the status code.
+func (n *Node) UploadChunk(payload []byte, pin bool) int {
+	req := httptest.NewRequest(http.MethodPost, "/chunks", bytes.NewReader(payload))
+	if pin {
+		req.Header.Set(api.AuroraPinHeader, "true")
+	}
+	return n.do(req).Code
+}
+
 // Download GETs /aurora/{ref}/ (the index document of a single-file upload).
 func (n *Node) Download(ref boson.Address, path string) ([]byte, int) {
 	req := httptest.NewRequest(http.MethodGet, "/aurora/"+ref.String()+"/"+path, nil)
